@@ -40,6 +40,8 @@ func (o c20Op) String() string {
 		return "Set(k00..k30) [31 parameters: above the size the pool keeps]"
 	case "renew0":
 		return "Destroy();NewContext() [context released as is: parameters set, no node, no path]"
+	case "zero":
+		return "Destroy(); ctx = new(types.Context) [the zero value is a usable, empty context]"
 	}
 	return "Destroy();NewContext() [context released dirty: path, node, router name]"
 }
@@ -52,7 +54,7 @@ func c20Alphabet() []c20Op {
 		}
 		ops = append(ops, c20Op{"del", k, ""})
 	}
-	return append(ops, c20Op{K: "reset"}, c20Op{K: "renew"}, c20Op{K: "renew0"}, c20Op{"del", "zz", ""}, c20Op{K: "fill31"})
+	return append(ops, c20Op{K: "reset"}, c20Op{K: "renew"}, c20Op{K: "renew0"}, c20Op{"del", "zz", ""}, c20Op{K: "fill31"}, c20Op{K: "zero"})
 }
 
 // someNode is a real types.Node taken from a throw-away router (the harness does not implement the interface
@@ -209,8 +211,19 @@ func c20Run(ops []c20Op) (ctx *types.Context, model map[string]string, class, ob
 	drainPool()
 	ctx = types.NewContext()
 	model = map[string]string{}
+	var cur c20Op
+	defer func() {
+		if e := recover(); e != nil {
+			class, obs, exp = "panic:"+cur.K, fmt.Sprintf("%s panicked: %v", cur, e), "no panic"
+		}
+	}()
 	for _, o := range ops {
+		cur = o
 		switch o.K {
+		case "zero":
+			ctx.Destroy()
+			ctx = new(types.Context)
+			model = map[string]string{}
 		case "fill31":
 			for i := 0; i < 31; i++ {
 				k := fmt.Sprintf("k%02d", i)
